@@ -2,6 +2,7 @@ package main
 
 import (
 	"bufio"
+	"bytes"
 	"context"
 	"encoding/json"
 	"errors"
@@ -239,9 +240,10 @@ func (r *simRun) allKeys() []string {
 	return keys
 }
 
-func decode(res rueidis.RedisResult) Res {
+// classifyErr turns an error of a call into the result kinds of Cluster.tla.
+func classifyErr(err error) Res {
 	out := Res{N: "-", To: "-", IDs: []int{}}
-	if err := res.Error(); err != nil {
+	{
 		var re *rueidis.RedisError
 		switch {
 		case errors.As(err, &re):
@@ -265,6 +267,54 @@ func decode(res rueidis.RedisResult) Res {
 			out.Err = err.Error()
 		}
 		return out
+	}
+}
+
+// decodeText reads a value "<node>|<key>" as the streaming calls deliver it.
+func decodeText(s string) Res {
+	out := Res{N: "-", To: "-", IDs: []int{}}
+	switch s {
+	case "OK":
+		out.K = "ok"
+	case "QUEUED":
+		out.K = "queued"
+	default:
+		n, id := splitVal(s)
+		if id < 0 {
+			out.K = "err:value " + s
+		} else {
+			out.K, out.N, out.ID = "val", n, id
+		}
+	}
+	return out
+}
+
+// drain reads the n replies of a DoStream / DoMultiStream result.
+func drain(s rueidis.MultiRedisResultStream, n int) []Res {
+	var out []Res
+	var buf bytes.Buffer
+	for s.HasNext() && len(out) < n {
+		buf.Reset()
+		if _, err := s.WriteTo(&buf); err != nil {
+			out = append(out, classifyErr(err))
+		} else {
+			out = append(out, decodeText(buf.String()))
+		}
+	}
+	for len(out) < n { // the call failed as a whole (no node for the slot, connection trouble)
+		err := s.Error()
+		if err == nil {
+			err = errors.New("stream ended early")
+		}
+		out = append(out, classifyErr(err))
+	}
+	return out
+}
+
+func decode(res rueidis.RedisResult) Res {
+	out := Res{N: "-", To: "-", IDs: []int{}}
+	if err := res.Error(); err != nil {
+		return classifyErr(err)
 	}
 	msg, _ := res.ToMessage()
 	if arr, err := msg.ToArray(); err == nil {
@@ -341,6 +391,8 @@ func (r *simRun) call(ci int, st Step) {
 			cmds = append(cmds, b.Multi().Build())
 		case m.C == "E":
 			cmds = append(cmds, b.Exec().Build())
+		case m.C == "n": // a command without a key; the text carries the member id (and the opt-in mark) like a key does
+			cmds = append(cmds, b.Echo().Message(key).Build())
 		case cache:
 			cts = append(cts, rueidis.CT(b.Get().Key(key).Cache(), time.Minute))
 		case m.C == "r":
@@ -390,6 +442,10 @@ func (r *simRun) call(ci int, st Step) {
 			for _, x := range r.client.DoMultiCache(ctx, cts...) {
 				out = append(out, decode(x))
 			}
+		case "stream":
+			out = drain(r.client.DoStream(ctx, cmds[0]), 1)
+		case "multistream":
+			out = drain(r.client.DoMultiStream(ctx, cmds...), len(cmds))
 		}
 		done <- out
 	}()
@@ -470,9 +526,19 @@ func (r *simRun) run() {
 	defer client.Close()
 	ci := 0
 	lastCallSeq := 0
-	for _, st := range r.sc.Script {
+	lastKind := ""
+	lastCall := -1
+	for i, st := range r.sc.Script {
+		if st.T == "call" {
+			lastCall = i
+		}
+	}
+	for i, st := range r.sc.Script {
 		if r.problem != "" {
 			return
+		}
+		if i > lastCall && st.T == "refresh" {
+			break // nothing depends on a refresh after the last call (ClusterTrace.tla places it whenever it comes)
 		}
 		switch st.T {
 		case "topo":
@@ -486,9 +552,12 @@ func (r *simRun) run() {
 		case "call":
 			ci++
 			lastCallSeq = r.tr.Len()
+			lastKind = st.Kind
 			r.call(ci, st)
 		case "refresh":
-			r.waitRefresh(lastCallSeq)
+			if lastKind != "stream" && lastKind != "multistream" { // the streaming calls never arm the lazy refresh
+				r.waitRefresh(lastCallSeq)
+			}
 		}
 	}
 }
@@ -543,6 +612,7 @@ func randomScenario(rng *rand.Rand, n int, focus []string) Scenario {
 	truth := [4]string{"a", "b", "c", ""}
 	var migr [4]string
 	down := map[string]bool{}
+	mfail := map[string]bool{} // primaries the nodes list as not online (their shard has no usable master)
 	report := reportOf(truth, down)
 	live := func() []string {
 		var l []string
@@ -556,7 +626,10 @@ func randomScenario(rng *rand.Rand, n int, focus []string) Scenario {
 	topoStep := func() Step {
 		stale := map[string]map[string][]string{}
 		lag := false
-		switch k := rng.Intn(10); {
+		switch k := rng.Intn(11); {
+		case k == 10: // the master of a shard with replicas is reported as failed / is healthy again (ownership unchanged)
+			p := []string{"a", "b"}[rng.Intn(2)]
+			mfail[p] = !mfail[p]
 		case k < 4: // move a slot, maybe with stale views (chains, self, unknown node d)
 			s := rng.Intn(3)
 			old := truth[s]
@@ -580,6 +653,9 @@ func randomScenario(rng *rand.Rand, n int, focus []string) Scenario {
 			cand := live()
 			if q := cand[rng.Intn(len(cand))]; q != truth[s] {
 				migr[s] = q
+				if rng.Intn(3) == 0 { // the target does not know yet that it imports the slot: it bounces the first ASKING command
+					stale[q] = map[string][]string{strconv.Itoa(s): {cand[rng.Intn(len(cand))]}}
+				}
 			}
 		case k < 8: // finish migrations
 			for s := range migr {
@@ -613,6 +689,11 @@ func randomScenario(rng *rand.Rand, n int, focus []string) Scenario {
 		}
 		if !lag {
 			report = reportOf(truth, down)
+			for s := range report {
+				if mfail[report[s].P] {
+					report[s].P = ""
+				}
+			}
 		}
 		st := Step{T: "topo", Truth: map[string]string{}, Migr: map[string]string{}, Stale: stale, Report: map[string]clustersim.Group{}}
 		for s := 0; s < 4; s++ {
@@ -624,7 +705,7 @@ func randomScenario(rng *rand.Rand, n int, focus []string) Scenario {
 		}
 		return st
 	}
-	kinds := []string{"do", "do", "docache", "multi", "multi", "multi", "multicache"}
+	kinds := []string{"do", "do", "docache", "multi", "multi", "multi", "multicache", "stream", "multistream"}
 	if len(focus) > 0 {
 		kinds = focus
 	}
@@ -642,6 +723,17 @@ func randomScenario(rng *rand.Rand, n int, focus []string) Scenario {
 			st.Mem = []Member{mk(slot(), []string{"r", "w"}[rng.Intn(2)])}
 		case "docache":
 			st.Mem = []Member{mk(slot(), "r")}
+		case "stream":
+			st.Mem = []Member{mk(slot(), []string{"r", "w"}[rng.Intn(2)])}
+		case "multistream": // one slot, at least one command with a key, maybe commands without a key
+			s := slot()
+			for i := 0; i < 1+rng.Intn(3); i++ {
+				st.Mem = append(st.Mem, mk(s, []string{"r", "r", "w"}[rng.Intn(3)]))
+			}
+			for i := 0; i < rng.Intn(3); i++ {
+				j := rng.Intn(len(st.Mem) + 1)
+				st.Mem = append(st.Mem[:j], append([]Member{{S: -1, C: "n", O: rng.Intn(2) == 0}}, st.Mem[j:]...)...)
+			}
 		case "multicache":
 			for i := 0; i < 1+rng.Intn(5); i++ {
 				st.Mem = append(st.Mem, mk(slot(), "r"))
@@ -660,6 +752,15 @@ func randomScenario(rng *rand.Rand, n int, focus []string) Scenario {
 				st.Mem = append(st.Mem, Member{S: -1, C: "E"})
 				for i := 0; i < post && len(st.Mem) < 5; i++ {
 					st.Mem = append(st.Mem, mk(s, []string{"r", "w"}[rng.Intn(2)]))
+				}
+			} else if rng.Intn(5) == 0 { // commands without a key among commands of one slot
+				s := slot()
+				for i := 0; i < 1+rng.Intn(3); i++ {
+					st.Mem = append(st.Mem, mk(s, []string{"r", "w"}[rng.Intn(2)]))
+				}
+				for i := 0; i < 1+rng.Intn(2); i++ {
+					j := rng.Intn(len(st.Mem) + 1)
+					st.Mem = append(st.Mem[:j], append([]Member{{S: -1, C: "n", O: rng.Intn(2) == 0}}, st.Mem[j:]...)...)
 				}
 			} else {
 				for i := 0; i < 1+rng.Intn(5); i++ {
@@ -718,8 +819,11 @@ func diffRes(want, got []Res, ignoreNode bool) string {
 		}
 		switch w.K {
 		case "val":
-			if w.ID != g.ID || (!ignoreNode && w.N != g.N) {
-				return fmt.Sprintf("member=%d value want=%s|%d got=%s|%d", i+1, w.N, w.ID, g.N, g.ID)
+			if w.ID != g.ID {
+				return fmt.Sprintf("member=%d value reply-of-another-member want=%s|%d got=%s|%d", i+1, w.N, w.ID, g.N, g.ID)
+			}
+			if !ignoreNode && w.N != g.N {
+				return fmt.Sprintf("member=%d value wrong-node want-role=%s got-role=%s want=%s|%d got=%s|%d", i+1, role(w.N), role(g.N), w.N, w.ID, g.N, g.ID)
 			}
 		case "exec":
 			if fmt.Sprint(w.IDs) != fmt.Sprint(g.IDs) || (!ignoreNode && w.N != g.N) {
@@ -734,18 +838,28 @@ func diffRes(want, got []Res, ignoreNode bool) string {
 	return ""
 }
 
+func role(n string) string {
+	if clustersim.IsRepl(n) {
+		return "replica"
+	}
+	return "primary"
+}
+
 func classOf(sc Scenario, ci int) string {
 	n := 0
 	for _, st := range sc.Script {
 		if st.T == "call" {
 			if n == ci {
-				tx := ""
+				tx, kl := "", ""
 				for _, m := range st.Mem {
 					if m.C == "M" {
 						tx = "+tx"
 					}
+					if m.C == "n" {
+						kl = "+keyless"
+					}
 				}
-				return st.Kind + tx
+				return st.Kind + tx + kl
 			}
 			n++
 		}
@@ -798,6 +912,13 @@ func runSim(rep *vh.Report) {
 			s.Shards = n%2 == 0
 			s.Noise = clustersim.Noise{SelfEmpty: n%3 == 0, UnknownRepl: n%5 == 0, Unhealthy: n%2 == 0, ReplFirst: n%4 == 0,
 				TLSPort: n%3 == 1, Hostnames: n%4 == 1}
+			for _, st := range s.Script {
+				for _, g := range st.Report {
+					if nn(g.P) == "" && len(g.RS) > 0 {
+						s.Shards = true // a master that is listed but not online: only CLUSTER SHARDS can say that
+					}
+				}
+			}
 			scens = append(scens, s)
 		}
 		f.Close()
@@ -827,6 +948,25 @@ func runSim(rep *vh.Report) {
 				time.Sleep(200 * time.Millisecond)
 				r = &simRun{sc: scens[i]}
 				r.run()
+			}
+			// a command that failed with a transport-level error other than a time-out although every node is alive: seen
+			// once on a machine at load 170+ (MOVED to a node the reports do not list yet, the lazy refresh drops that node,
+			// and the goroutine that re-sends the command is stalled for more than the 5 s after which the dropped connection
+			// is closed).  A timing-dependent verdict has to reproduce before it counts: the run is repeated, and its trace
+			// (which ClusterTrace.tla rejects at Ret) is kept only if the error shows again.
+			if r.problem == "" && r.note != "" {
+				fmt.Fprintf(os.Stderr, "scenario %s: %s - running it again\n", r.sc.Name, r.note)
+				for k := 0; k < 2; k++ {
+					r2 := &simRun{sc: scens[i]}
+					r2.run()
+					if r2.problem != "" {
+						continue
+					}
+					r = r2
+					if r2.note != "" {
+						break // reproduced
+					}
+				}
 			}
 			if r.sc.Gen && r.problem == "" {
 				if d := compare(r); d != "" {
@@ -915,7 +1055,7 @@ func stableSig(d string) string {
 			continue
 		}
 		if strings.HasPrefix(x, "want=") || strings.HasPrefix(x, "got=") {
-			if i := strings.IndexAny(x, "|["); i >= 0 && (strings.Contains(d, "value") || strings.Contains(d, "exec")) {
+			if i := strings.IndexAny(x, "|["); i >= 0 {
 				continue
 			}
 		}
